@@ -301,7 +301,7 @@ func c14Exec(it *interp.Interpreter, run *c14Run, log *core.Log, shared *core.Si
 			_ = os.RemoveAll(d)
 		}()
 	}
-	if run.NilShell {
+	if run.NilShell && (run.Ctx == "" || run.Ctx == "never") && !strings.HasPrefix(run.Act, "cancel") {
 		cfg.ShellCommand = nil
 	}
 	if run.CRLF {
@@ -525,6 +525,11 @@ func c14GenRun(r *core.Rand, resetVars, resetRand bool, children bool) c14Run {
 	run.BadMode = r.Chance(1, 25)
 	run.NilOpen = r.Chance(1, 10)
 	run.NilShell = run.UseCmd && r.Chance(1, 6)
+	if run.Ctx == "pre" || run.Ctx == "step" || run.Ctx == "deadline" || strings.HasPrefix(run.Act, "cancel") {
+		// a cancellation kills /bin/sh at a moment no schedule of ours decides: what it had
+		// already written to standard error would differ from run to run
+		run.NilShell = false
+	}
 	if r.Chance(1, 4) && !run.EnvNil {
 		run.Environ = []string{"HOME", "/h", "E" + fmt.Sprint(r.Intn(3)), "v"}
 	}
